@@ -40,11 +40,15 @@ function isFiller(o, k, flo, fhi) {
 
 function SD(o, flo, fhi) {
 	var keys = Reflect.ownKeys(o), arr = Array.isArray(o), s = (arr ? "[" : "{") + (Object.isExtensible(o) ? "" : "!"), fill = 0;
+	// two-level concatenation: goja copies the whole left operand on every +=
+	var blk = "";
 	for (var i = 0; i < keys.length; i++) {
 		var k = keys[i];
 		if (fhi > flo && typeof k === "string" && isFiller(o, k, flo, fhi)) { fill++; continue; }
-		s += PD(o, k);
+		blk += PD(o, k);
+		if ((i & 63) === 63) { s += blk; blk = ""; }
 	}
+	s += blk;
 	if (fhi > flo) s += "fill=" + fill;
 	return s + (arr ? "]" : "}");
 }
@@ -53,11 +57,14 @@ function DUMP(a) {
 	CUR = a; MUTE = true;
 	try {
 		var s = SD(a, FLO, FHI) + "|len=" + FV(a.length) + "|K=", ks = Object.keys(a), fill = 0, i;
+		var blk = "";
 		for (i = 0; i < ks.length; i++) {
 			var k = ks[i], n = Number(k);
 			if (FHI > FLO && n >= FLO && n < FHI && String(n) === k) { fill++; continue; }
-			s += k + ",";
+			blk += k + ",";
+			if ((i & 63) === 63) { s += blk; blk = ""; }
 		}
+		s += blk;
 		if (FHI > FLO) s += "fill=" + fill;
 		s += "|P=";
 		for (i = 0; i < PROBE.length; i++) {
@@ -72,8 +79,12 @@ function DUMPVALUES(a) {
 	CUR = a; MUTE = true;
 	try {
 		var n = a.length, s = "len=" + n + "|";
-		for (var i = 0; i < n; i++) s += FV(a[i]) + ",";
-		return s;
+		var blk = "";
+		for (var i = 0; i < n; i++) {
+			blk += FV(a[i]) + ",";
+			if ((i & 63) === 63) { s += blk; blk = ""; }
+		}
+		return s + blk;
 	} finally { MUTE = false; }
 }
 
